@@ -506,7 +506,7 @@ package shell_operator
 //@   requires op.HookManager != nil && tqs != nil && tqs.Queues != nil
 //@   requires forall(a, 0, len(op.HookManager.hooksInOrder["onStartup"]), op.HookManager.hooksInOrder["onStartup"][a] != nil && op.HookManager.hooksInOrder["onStartup"][a].Config != nil)
 //@   requires forall(a, 0, len(op.HookManager.hooksInOrder["onStartup"]), forall(b, 0, len(op.HookManager.hooksInOrder["onStartup"]), a < b ==> op.HookManager.hooksInOrder["onStartup"][a].Name < op.HookManager.hooksInOrder["onStartup"][b].Name))
-//@   modifies tqs.MainName, mapof(tqs.Queues), elems(op.HookManager.hooksInOrder["onStartup"]), queue.nAddLast, queue.addLastTask, queue.addLastQueue, all(queue.TaskQueue.items), all(queue.TaskQueue.measureActionFn), allelems(task.Task), queue.nMut
+//@   modifies kubeeventsmanager.nCtx, kubeeventsmanager.ctxLog, kubeeventsmanager.ctxParent, kubeeventsmanager.ctxCancel, tqs.MainName, mapof(tqs.Queues), elems(op.HookManager.hooksInOrder["onStartup"]), queue.nAddLast, queue.addLastTask, queue.addLastQueue, all(queue.TaskQueue.items), all(queue.TaskQueue.measureActionFn), allelems(task.Task), queue.nMut
 //@   let n0 := old(queue.nAddLast)
 //@   ensures [main-queue-only]  forall(k, n0, queue.nAddLast, queue.addLastQueue[k] != nil && queue.addLastQueue[k] == tqs.Queues["main"])
 //@   ensures [startup-first]    has(op.HookManager.hooksInOrder, "onStartup") && queue.nAddLast > n0 ==> queue.nAddLast >= n0 + len(op.HookManager.hooksInOrder["onStartup"])
